@@ -203,6 +203,9 @@ func (s *MemoryStore) GetClient(_ context.Context, id string) (fosite.Client, er
 }
 
 func (s *MemoryStore) SetTokenLifespans(clientID string, lifespans *fosite.ClientLifespanConfig) error {
+	s.clientsMutex.RLock()
+	defer s.clientsMutex.RUnlock()
+
 	if client, ok := s.Clients[clientID]; ok {
 		if clc, ok := client.(*fosite.DefaultClientWithCustomTokenLifespans); ok {
 			clc.SetTokenLifespans(lifespans)
@@ -388,8 +391,11 @@ func (s *MemoryStore) Authenticate(_ context.Context, name string, secret string
 }
 
 func (s *MemoryStore) RevokeRefreshToken(ctx context.Context, requestID string) error {
+	// Same lock order as CreateRefreshTokenSession: request-id index first, then the token table.
 	s.refreshTokenRequestIDsMutex.Lock()
 	defer s.refreshTokenRequestIDsMutex.Unlock()
+	s.refreshTokensMutex.Lock()
+	defer s.refreshTokensMutex.Unlock()
 
 	if signature, exists := s.RefreshTokenRequestIDs[requestID]; exists {
 		rel, ok := s.RefreshTokens[signature]
